@@ -41,7 +41,7 @@ pub fn run(cx: &Ctx, space: &Space, cfg: &RefCfg) -> Tally {
     let prop = cx.prop.clone();
     let tallies = par::run_workers(64, |_w, claimer| {
         engine::quiet_panics();
-        engine::set_sweep_horizons(300_000, 20_000);
+        engine::set_sweep_horizons(40_000, 5_000);
         if cfg.shadow {
             fancy_regex::verif::set_shadow(true);
         }
@@ -224,7 +224,7 @@ pub fn replay(case: &J) -> i32 {
     let text = case.str_of("text");
     let pos = case.int_of("pos") as usize;
     engine::quiet_panics();
-    engine::set_sweep_horizons(300_000, 20_000);
+    engine::set_sweep_horizons(40_000, 5_000);
     let re = match engine::compile(&pattern) {
         Ok(r) => r,
         Err(e) => {
